@@ -166,11 +166,12 @@ def parse_vc(path):
             u.seq.append(dict(kind="traitimpl", src=m.group(1), header=m.group(2), methods=ms, target=m.group(4), line=ln))
         elif d == "slice":
             # @@ slice <src> <fnpath-in-source> <newname> "<start anchor>" "<end anchor>"   (R9)
-            m = re.match(r'@@\s*slice\s+(\S+)\s+(\S+)\s+(\S+)\s+"((?:[^"\\]|\\.)*)"\s+"((?:[^"\\]|\\.)*)"(?:\s*#(\d+))?((?:\s+(?:skipfirst|skiplast))*)\s*$', raw)
+            m = re.match(r'@@\s*slice\s+(\S+)\s+(\S+)\s+(\S+)\s+"((?:[^"\\]|\\.)*)"\s+"((?:[^"\\]|\\.)*)"(?:\s*#(\d+))?((?:\s+(?:skipfirst|skiplast|skip=\d+))*)\s*$', raw)
             if not m:
                 raise SystemExit("%s:%d: bad slice" % (path, ln))
             cur = dict(kind="slicehdr", src=m.group(1), host=m.group(2), new=m.group(3), a0=m.group(4).replace('\\"', '"'), a1=m.group(5).replace('\\"', '"'), n1=int(m.group(6) or 1), line=ln,
-                       skipfirst="skipfirst" in (m.group(7) or ""), skiplast="skiplast" in (m.group(7) or ""))
+                       skipfirst="skipfirst" in (m.group(7) or ""), skiplast="skiplast" in (m.group(7) or ""),
+                       skip=int((re.search(r"skip=(\d+)", m.group(7) or "") or [0, 0])[1]))
             u.seq.append(cur)
             cur = None
         elif d == "spec":
@@ -1632,6 +1633,8 @@ class Assembler:
         e = text.find("\n", i1)
         if d.get("skipfirst"):
             b = text.find("\n", i0) + 1          # the line holding the start anchor is not part of the slice
+        for _ in range(d.get("skip", 0)):
+            b = text.find("\n", b) + 1           # `skip=N`: the slice starts N lines below the line holding the start anchor
         if d.get("skiplast"):
             e = text.rfind("\n", 0, i1)          # nor the one holding the end anchor
         body = text[b:e]
